@@ -6,7 +6,8 @@
 
    trace:  case <n>
            cp <scenario> <k> <injection> <side>
-           out <inj|peer> <hs|est|sd> <close|abort|rfail|wfail|peerabort> <caller kind> <outcome> <abort cause or -1> *)
+           out <inj|peer> <hs|est|sd> <close|abort|rfail|wfail|peerabort> <caller kind> <outcome> <abort cause or -1>
+               <shutdownCompleted of that side for a Shutdown caller, else -1> *)
 module M = Model
 open Zio
 
@@ -31,11 +32,12 @@ let finals phase inj kind t1 =
     Hashtbl.replace memo key l; l
 
 (* does the model's final outcome o show the caller `kind` with the implementation's result `out`? *)
-let matches kind out cause (o : M.td_outcome) : bool =
-  let (((((pab, cw), rd), wr), ac), sh) = o in
+let matches kind out cause sdcf (o : M.td_outcome) : bool =
+  let ((((((pab, cw), rd), wr), ac), sh), sdc) = o in
   let cause_ok = match cause with
     | 0 -> pab = M.TdCeAbort0 | 1 -> pab = M.TdCeAbort1 | _ -> true in
-  cause_ok &&
+  let sdc_ok = match sdcf with 0 -> not sdc | 1 -> sdc | _ -> true in
+  cause_ok && sdc_ok &&
   (match kind, out with
    | "connect", "ok" -> cw = M.TdCwOk
    | "connect", "closed" -> cw = M.TdCwClosed
@@ -53,7 +55,8 @@ let matches kind out cause (o : M.td_outcome) : bool =
    | "acceptor", "stream" -> ac = M.TdAcStream
    | "acceptor", "blocked" -> ac = M.TdAcWait
    | "shutdown", "nil" -> sh = M.TdShNil
-   | "shutdown", "blocked" -> sh = M.TdShWait
+   | "shutdown", "err" -> sh = M.TdShErr          (* ErrShutdownIncomplete *)
+   | "shutdown", "blocked" -> sh = M.TdShWait || sh = M.TdShWoken
    | _, _ -> false)
 
 let dist = Hashtbl.create 64
@@ -66,18 +69,19 @@ let run path =
     incr ncases;
     let scen = match List.find_opt (fun l -> List.hd l = "cp") lines with
       | Some (_ :: s :: _) -> s | _ -> "?" in
-    (* the scenario in which T1 gave up is compared with the families in which it may *)
+    (* the scenario in which T1 gave up is compared with the families in which it may (the connect call gets
+       the handshake error and closes the association) *)
     let t1 = (scen = "t1-exhausted") in
     List.iteri (fun i l ->
       match l with
-      | ["out"; role; phase; inj; kind; out; cause] ->
+      | ["out"; role; phase; inj; kind; out; cause; sdcf] ->
         incr records;
         (try
            let phase = if t1 && role = "inj" then "hs" else phase in
            let t1here = t1 && role = "inj" in
            let fs = finals phase inj kind t1here in
            bump (Printf.sprintf "%s/%s/%s=%s" phase inj kind out);
-           if not (List.exists (matches kind out (int_of_string cause)) fs) then
+           if not (List.exists (matches kind out (int_of_string cause) (int_of_string sdcf)) fs) then
              report name i (Printf.sprintf "scenario=%s %s-side phase=%s injection=%s caller=%s cause=%s: outcome not among the model's %d final states"
                               scen role phase inj kind cause (List.length fs))
                "-" out
